@@ -4,11 +4,13 @@
         -> "<general_position closed> <gp_open> <general_position_C05>"
    OPEN tn td m <pathsS> <pathsC> <pathsO> k (ct fr <pathsOpenSolution>)*k
         tolerances: vertices within tn/td, m units around a cut, m units of length per cut (the property: 3 2 3)
-        -> "gp=0"                                         (closed paths, or open against closed, not in general position:
-                                                           nothing else is computed)
-         | "gp=1 const=<0|1> oself=<0|1> segs=<n> pieces=<n>" then for each of the k solutions
-           (oself = open_general: the open polylines are in general position among themselves and every crossing is
-            clear of every third edge; the hypothesis of C05, general_position_C05, is gp=1 and oself=1)
+        -> "gp=0"                                         (closed paths not in general position, or a degenerate open polyline:
+                                                           not judged, nothing else is computed)
+         | "gp=1 const=<0|1> oself=1 segs=<n> pieces=<n>"  strict class (general_position_C05): run-based checks [check_open]
+         | "gp=2 const=1 oself=0 segs=<n> pieces=<n>"      broad class (judged_broad only: open polylines near closed edges,
+                                                           close crossings, fold-backs): robust pointwise checks
+                                                           [check_open_robust]; L is always ok, K = robustly kept sample points
+           then for each of the k solutions
            " | V n [x y] S n [x1 y1 x2 y2] E n [x1 y1 x2 y2] M n [ax ay bx by lo hi] L ok sollo solhi keptlo kepthi cuts K keptruns"
            V: solution vertices farther than 3/2 from every open subject segment (count, first one)
            S: solution segments without a single subject segment within 3/2 of both end points
@@ -50,12 +52,17 @@ let handle t =
       let k = next_int t in
       let sols = List.init k (fun _ ->
         let ct = ct_of_Z (next_z t) in let fr = fr_of_Z (next_z t) in let sol = read_paths t in (ct, fr, sol)) in
-      if not (general_position_open s c o) then "gp=0"
-      else begin
+      if not (judged_broad s c o) then "gp=0"
+      else if general_position_C05 s c o then begin
         let sp = open_spec s c o in
         let np = List.fold_left (fun a (ss : sseg) -> a + List.length ss.ss_pieces) 0 sp in
-        let head = Printf.sprintf "gp=1 const=%s oself=%s segs=%d pieces=%d" (show_bool (spec_consistent sp)) (show_bool (open_general (s @ c) o)) (List.length sp) np in
+        let head = Printf.sprintf "gp=1 const=%s oself=1 segs=%d pieces=%d" (show_bool (spec_consistent sp)) (List.length sp) np in
         String.concat " | " (head :: List.map (fun (ct, fr, sol) -> show_report (check_open tl ct fr sp sol)) sols)
+      end else begin
+        let smp = open_samples s c o in
+        let np = List.fold_left (fun a (_, l) -> a + List.length l) 0 smp in
+        let head = Printf.sprintf "gp=2 const=1 oself=0 segs=%d pieces=%d" (List.length smp) (np / 3) in
+        String.concat " | " (head :: List.map (fun (ct, fr, sol) -> show_report (check_open_robust ct fr s c smp sol)) sols)
       end
   | "SPEC" -> let ct = ct_of_Z (next_z t) in let fr = fr_of_Z (next_z t) in
       let s = read_paths t in let c = read_paths t in let o = read_paths t in
